@@ -399,4 +399,167 @@ theorem inv_importItem {ctx : Ctx} {g g' : Graph} {name : Str} {kind : Kind} {ou
       · exact pk.2.2.2.2
       · exact ⟨a.free.nodup, a.free.vacant, a.free.all⟩
 
+/-- adding a fresh node without touching edges or maps: everything old stays fine, the new
+    node has to be justified -/
+theorem inv_addNode_plain {ctx : Ctx} {g : Graph} (h : Inv ctx g) (nd : Node)
+    (hnew : ∀ g1 idx, Added g g1 idx nd → NodeOk g1 idx nd) : Inv ctx (g.addNode nd).1 := by
+  have a := added_of_addNode h nd
+  generalize (g.addNode nd).1 = g1 at a ⊢
+  generalize (g.addNode nd).2 = idx at a ⊢
+  have pk := pkgPart_congr (g' := g1) h a.pkgs a.pkgMap a.freePkgs
+  apply Inv.build
+  · intro e he
+    exact a.edgeOk rfl rfl (h.edges e (by simpa [a.edges] using he))
+  · simpa [a.edges] using h.argUnique
+  · intro m x hx
+    rcases a.cases hx with ⟨rfl, rfl⟩ | ⟨hm, hx'⟩
+    · exact hnew g1 m a
+    · refine a.nodeOk (g2 := g1) rfl rfl ?_ ?_ ?_ (h.node hx')
+      · intro k v hk; simpa [a.imports] using hk
+      · intro k v hk; simpa [a.defined] using hk
+      · intro k v hk; simpa [a.exports] using hk
+  · simpa [a.exports] using h.exportsKeys
+  · intro e he
+    obtain ⟨x, hx, hxe⟩ := h.exportsLive' e (by simpa [a.exports] using he)
+    exact ⟨x, (a.old hx).1, hxe⟩
+  · simpa [a.imports] using h.importsKeys
+  · intro e he
+    obtain ⟨x, hx, hxe⟩ := h.importsLive' e (by simpa [a.imports] using he)
+    exact ⟨x, (a.old hx).1, hxe⟩
+  · simpa [a.defined] using h.definedKeys
+  · intro e he
+    obtain ⟨x, hx, hxe⟩ := h.definedLive' e (by simpa [a.defined] using he)
+    exact ⟨x, (a.old hx).1, hxe⟩
+  · exact pk.1
+  · exact pk.2.1
+  · exact pk.2.2.1
+  · exact pk.2.2.2.1
+  · exact pk.2.2.2.2
+  · exact a.free
+
+/-! ### `instantiate` -/
+
+theorem inv_instantiate {ctx : Ctx} {g g' : Graph} {id : PkgId} {out : Outcome}
+    (h : Inv ctx g) (hs : instantiate g id = (g', out)) : Inv ctx g' := by
+  unfold instantiate at hs
+  split at hs
+  · simp only [Prod.mk.injEq] at hs; rw [← hs.1]; exact h
+  · rename_i d hd
+    simp only [Prod.mk.injEq] at hs
+    rw [← hs.1]
+    apply inv_addNode_plain h
+    intro g1 idx a
+    have hp : g1.pkgOf id = .ok d := by rw [pkgOf_congr a.pkgs]; exact hd
+    refine ⟨?_, ?_, by simp⟩
+    · intro pid hpid
+      simp only [Option.mem_def, Option.some.injEq] at hpid
+      subst hpid
+      simp [Graph.pkgLive, hp]
+    · simp only [List.nodup_nil, List.not_mem_nil, false_imp_iff, implies_true, true_and]
+      exact ⟨id, rfl, d, by rw [hp]; rfl, rfl⟩
+
+/-! ### `register_package` -/
+
+/-- live package ids stay live with the same package -/
+def PkgMono (g g' : Graph) : Prop := ∀ id d, g.pkgOf id = .ok d → g'.pkgOf id = .ok d
+
+theorem toOption_mem {ε α : Type} {x : Except ε α} {a : α} : a ∈ x.toOption ↔ x = .ok a := by
+  cases x <;> simp [Except.toOption]
+
+theorem EdgeOk.pkgMono {ctx : Ctx} {g g' : Graph} {e : Edge} (h : EdgeOk ctx g e)
+    (hn : g'.nodes = g.nodes) (hp : PkgMono g g') : EdgeOk ctx g' e := by
+  obtain ⟨s, hs, d, hd, hk⟩ := h
+  refine ⟨s, by rw [Option.mem_def, node?_congr hn]; exact hs, d, by rw [Option.mem_def, node?_congr hn]; exact hd, ?_⟩
+  cases hek : e.kind with
+  | alias i => rw [hek] at hk; exact hk
+  | arg i =>
+    rw [hek] at hk
+    simp only at hk ⊢
+    obtain ⟨h1, h2, pid, hpid, pd, hpd, hlt⟩ := hk
+    exact ⟨h1, h2, pid, hpid, pd, toOption_mem.mpr (hp _ _ (toOption_mem.mp hpd)), hlt⟩
+  | dep => rw [hek] at hk; exact hk
+
+theorem NodeOk.pkgMono {g g' : Graph} {n : Nat} {nd : Node} (h : NodeOk g n nd)
+    (he : g'.edges = g.edges) (hi : g'.imports = g.imports) (hd : g'.defined = g.defined)
+    (hx : g'.exports = g.exports) (hp : PkgMono g g') : NodeOk g' n nd := by
+  obtain ⟨h1, h2, h3⟩ := h
+  refine ⟨?_, ?_, by rw [hx]; exact h3⟩
+  · intro pid hpid
+    have := h1 pid hpid
+    unfold Graph.pkgLive at this ⊢
+    cases hq : g.pkgOf pid with
+    | error s => rw [hq] at this; cases this
+    | ok d => rw [hp _ _ hq]
+  · cases hk : nd.kind with
+    | instantiation sat =>
+      rw [hk] at h2
+      simp only at h2 ⊢
+      rw [he]
+      obtain ⟨a, b, pid, hpid, pd, hpd, hit⟩ := h2
+      exact ⟨a, b, pid, hpid, pd, toOption_mem.mpr (hp _ _ (toOption_mem.mp hpd)), hit⟩
+    | alias =>
+      rw [hk] at h2
+      simp only at h2 ⊢
+      unfold Graph.inEdges at h2 ⊢
+      rw [he]; exact h2
+    | «import» name =>
+      rw [hk] at h2
+      simp only at h2 ⊢
+      rw [hi]; exact h2
+    | definition ty =>
+      rw [hk] at h2
+      simp only at h2 ⊢
+      rw [hd]; exact h2
+
+/-- a state that differs from a consistent one only in the package table -/
+theorem inv_of_pkgTable {ctx : Ctx} {g g' : Graph} (h : Inv ctx g)
+    (hn : g'.nodes = g.nodes) (hf : g'.freeNodes = g.freeNodes) (he : g'.edges = g.edges)
+    (hi : g'.imports = g.imports) (hd : g'.defined = g.defined) (hx : g'.exports = g.exports)
+    (hp : PkgMono g g')
+    (pkgMapKeys : (g'.pkgMap.map (·.1)).Nodup)
+    (pkgMapLive : ∀ e ∈ g'.pkgMap, ∃ pd ∈ (g'.pkgOf e.2).toOption, pd.key = e.1)
+    (pkgSlots : ∀ i ∈ List.range g'.pkgs.length, ∀ slot ∈ g'.pkgs[i]?, SlotOk g' i slot)
+    (freePkgsNodup : g'.freePkgs.Nodup) (freePkgsRange : ∀ i ∈ g'.freePkgs, i < g'.pkgs.length) :
+    Inv ctx g' := by
+  apply Inv.build
+  · intro e hem; rw [he] at hem; exact (h.edges e hem).pkgMono hn hp
+  · rw [he]; exact h.argUnique
+  · intro n nd hnd
+    rw [node?_congr hn] at hnd
+    exact (h.node hnd).pkgMono he hi hd hx hp
+  · rw [hx]; exact h.exportsKeys
+  · intro e hem; rw [hx] at hem
+    obtain ⟨nd, a, b⟩ := h.exportsLive' e hem
+    exact ⟨nd, by rw [node?_congr hn]; exact a, b⟩
+  · rw [hi]; exact h.importsKeys
+  · intro e hem; rw [hi] at hem
+    obtain ⟨nd, a, b⟩ := h.importsLive' e hem
+    exact ⟨nd, by rw [node?_congr hn]; exact a, b⟩
+  · rw [hd]; exact h.definedKeys
+  · intro e hem; rw [hd] at hem
+    obtain ⟨nd, a, b⟩ := h.definedLive' e hem
+    exact ⟨nd, by rw [node?_congr hn]; exact a, b⟩
+  · exact pkgMapKeys
+  · exact pkgMapLive
+  · exact pkgSlots
+  · exact freePkgsNodup
+  · exact freePkgsRange
+  · have f := h.free
+    refine ⟨by rw [hf]; exact f.nodup, ?_, ?_⟩
+    · intro i hi'
+      rw [hf] at hi'
+      rw [hn, node?_congr hn]; exact f.vacant i hi'
+    · intro i hi' hv
+      rw [hn] at hi'
+      rw [node?_congr hn] at hv
+      rw [hf]; exact f.all i hi' hv
+
+theorem Inv.slot {ctx : Ctx} {g : Graph} (h : Inv ctx g) {i : Nat} {slot : PkgSlot} (hs : g.pkgs[i]? = some slot) :
+    SlotOk g i slot := by
+  have hi : i < g.pkgs.length := by
+    rcases Nat.lt_or_ge i g.pkgs.length with hl | hl
+    · exact hl
+    · rw [List.getElem?_eq_none hl] at hs; cases hs
+  exact h.pkgSlots i (List.mem_range.mpr hi) slot hs
+
 end Wac.Graph
